@@ -36,6 +36,36 @@ type Meta struct {
 	InboundMTU  int               `json:"InboundMTU"`
 	Lens        map[string]int    `json:"Lens"`
 	Extra       map[string]string `json:"Extra"`
+	Sys         string            `json:"Sys"` // which real system the spec is bound to ("" = relay server)
+}
+
+// Sys is a real system under test that a specification's actions can be replayed on.
+type Sys interface {
+	Do(a map[string]any, wait func()) ([]Obs, error)
+	Check(e Edge, obs []Obs) []Mismatch
+	Close()
+}
+
+// NewSys builds the system named by the specification's META line.
+func NewSys(meta Meta, seed int64, init any) (Sys, error) {
+	switch meta.Sys {
+	case "", "server":
+		return NewWorld(meta, seed)
+	case "nonce":
+		return newNonceSys(meta, seed, init)
+	}
+
+	return nil, fmt.Errorf("unknown system %q", meta.Sys)
+}
+
+// Check compares what the server did in one step with the spec's edge.
+func (w *World) Check(e Edge, obs []Obs) []Mismatch {
+	pr := w.Project()
+	name, _ := e.A["a"].(string)
+	ms := CompareOut(e.O, obs, pr, w, e.A)
+	ts, _ := e.TS.([]any)
+
+	return append(ms, CompareState(ts, pr, actorOf(e.A), name == "Advance")...)
 }
 
 const realm = "verif.example"
@@ -58,9 +88,11 @@ type World struct {
 	peerPort         map[int]int
 	peers            map[string]*MemConn // key "A/1"
 	peerKey          map[string]peerKeyT
-	relayOwner       map[string]string   // relay addr -> model client (from Allocate successes)
+	relayOwner       map[string]string // relay addr -> model client (from Allocate successes)
 	relayOf          map[string]*net.UDPAddr
 	nonce            string
+	staleNonce       string
+	noRetry          bool
 	step             int
 	gen              *memGen
 
@@ -263,6 +295,10 @@ func NewWorld(meta Meta, seed int64) (*World, error) {
 		cfg.PermissionTimeout = time.Duration(meta.PermTO) * w.Tick
 		cfg.ChannelBindTimeout = time.Duration(meta.ChanTO) * w.Tick
 	}
+	if meta.Extra["auth"] == "no" {
+		cfg.AuthHandler = nil
+	}
+	w.noRetry = meta.Extra["auth"] != ""
 	srv, err := turn.NewServer(cfg)
 	if err != nil {
 		return nil, err
@@ -388,15 +424,37 @@ func (w *World) peerAddr(p []any) *net.UDPAddr {
 }
 
 // wirePeer is the address written into XOR-PEER-ADDRESS: the same peer, sometimes in its
-// IPv4-mapped IPv6 form (the spec does not distinguish the two encodings of one address).
-func (w *World) wirePeer(p []any) proto.PeerAddress {
+// IPv4-mapped IPv6 form, i.e. an attribute of family IPv6 holding ::ffff:a.b.c.d (the spec does
+// not distinguish the two encodings of one address; pion/stun's own encoder would normalise
+// the mapped form away, so it is written by hand).
+func (w *World) wirePeer(p []any) stun.Setter {
 	a := w.peerAddr(p)
-	ip := a.IP
-	if w.Var.MappedPeers && ip.To4() != nil && w.coin("mp") {
-		ip = mapped(ip)
+	if w.Var.MappedPeers && a.IP.To4() != nil && w.coin("mp") {
+		return mappedPeerAttr{ip: mapped(a.IP), port: a.Port}
 	}
 
-	return proto.PeerAddress{IP: ip, Port: a.Port}
+	return proto.PeerAddress{IP: a.IP, Port: a.Port}
+}
+
+type mappedPeerAttr struct {
+	ip   net.IP
+	port int
+}
+
+func (m mappedPeerAttr) AddTo(msg *stun.Message) error {
+	const cookie = 0x2112A442
+	v := make([]byte, 4+16)
+	binary.BigEndian.PutUint16(v[0:2], 0x02)
+	binary.BigEndian.PutUint16(v[2:4], uint16(m.port)^uint16(cookie>>16)) //nolint:gosec
+	x := make([]byte, 16)
+	binary.BigEndian.PutUint32(x[0:4], cookie)
+	copy(x[4:], msg.TransactionID[:])
+	for i := 0; i < 16; i++ {
+		v[4+i] = m.ip.To16()[i] ^ x[i]
+	}
+	msg.Add(stun.AttrXORPeerAddress, v)
+
+	return nil
 }
 
 func (w *World) coin(salt string) bool {
@@ -509,6 +567,33 @@ func (w *World) ensureNonce(wait func()) error {
 	if w.nonce != "" {
 		return nil
 	}
+	if w.noRetry && w.staleNonce == "" {
+		// auth family: first a nonce that will be 61+ minutes old when the walk starts; with an
+		// odd seed the nonce used by authentic requests is 51 minutes old (still valid)
+		if err := w.mintNonce(wait); err != nil {
+			return err
+		}
+		w.staleNonce, w.nonce = w.nonce, ""
+		time.Sleep(600 * time.Second)
+		var old string
+		if w.Seed%2 == 1 {
+			if err := w.mintNonce(wait); err != nil {
+				return err
+			}
+			old, w.nonce = w.nonce, ""
+		}
+		time.Sleep(3065 * time.Second)
+		if old != "" {
+			w.nonce = old
+
+			return nil
+		}
+	}
+
+	return w.mintNonce(wait)
+}
+
+func (w *World) mintNonce(wait func()) error {
 	probe := w.Net.MustListen(&net.UDPAddr{IP: net.IPv4(10, 9, 9, 9).To4(), Port: 9})
 	defer probe.Close() //nolint:errcheck
 	m := stun.MustBuild(stun.TransactionID, stun.NewType(stun.MethodAllocate, stun.ClassRequest),
@@ -600,14 +685,14 @@ func (w *World) do1(a map[string]any, wait func()) (obs []Obs, retry bool, err e
 		pay := w.payload(a["pay"].(string), w.lenOf(a))
 		w.curPay[a["pay"].(string)] = pay
 		pa := w.wirePeer(a["p"].([]any))
+		ua := w.peerAddr(a["p"].([]any))
 		if w.lenOf(a) >= 0 { // the spec models the wire size: plain encoding of the peer address
-			ua := w.peerAddr(a["p"].([]any))
 			pa = proto.PeerAddress{IP: ua.IP, Port: ua.Port}
 		}
 		m := stun.MustBuild(stun.TransactionID, stun.NewType(stun.MethodSend, stun.ClassIndication), pa, proto.Data(pay))
 		if n := w.lenOf(a); n >= 0 {
 			want := 20 + 12 + 4 + (n+3)/4*4
-			if pa.IP.To4() == nil {
+			if ua.IP.To4() == nil {
 				want += 12
 			}
 			if len(m.Raw) != want {
@@ -621,6 +706,12 @@ func (w *World) do1(a map[string]any, wait func()) (obs []Obs, retry bool, err e
 		cd := proto.ChannelData{Number: proto.ChannelNumber(toInt(a["n"])), Data: pay} //nolint:gosec
 		cd.Encode()
 		w.sendFromClient(c, cd.Raw)
+	case "BadCred":
+		raw, err := w.badCred(c, a["m"].(string), a["k"].(string))
+		if err != nil {
+			return nil, false, err
+		}
+		w.sendFromClient(c, raw)
 	case "PeerData":
 		pay := w.payload(a["pay"].(string), w.lenOf(a))
 		w.curPay[a["pay"].(string)] = pay
@@ -688,7 +779,10 @@ func (w *World) collect(action, actor string) (obs []Obs, retry bool) {
 	for _, c := range cnames {
 		for _, pk := range w.clients[c].Drain() {
 			o := w.decodeAtClient(c, pk)
-			if o["k"] == "resp" && toInt(o["code"]) == 438 && c == actor && o["nonce"] != nil {
+			if n, ok := o["nonce"].(string); ok && w.noRetry && n != "" {
+				w.nonce = n // always present the nonce of the most recent challenge
+			}
+			if !w.noRetry && o["k"] == "resp" && toInt(o["code"]) == 438 && c == actor && o["nonce"] != nil {
 				w.nonce = o["nonce"].(string)
 				retry = true
 
@@ -920,4 +1014,144 @@ func (w *World) Project() Proj {
 	}
 
 	return pr
+}
+
+// ---------------------------------------------------------------------------
+// defective credentials (C03)
+
+func methodOf(name string) stun.Method {
+	switch name {
+	case "Allocate":
+		return stun.MethodAllocate
+	case "Refresh":
+		return stun.MethodRefresh
+	case "CreatePermission":
+		return stun.MethodCreatePermission
+	case "ChannelBind":
+		return stun.MethodChannelBind
+	case "Connect":
+		return stun.MethodConnect
+	case "ConnectionBind":
+		return stun.MethodConnectionBind
+	}
+
+	return stun.MethodBinding
+}
+
+// badCred builds a request of method m that would change state if it were accepted
+// (Refresh with lifetime 0, a permission / channel for a peer no authentic step uses) and
+// gives it the credential defect k.
+func (w *World) badCred(c, m, k string) ([]byte, error) {
+	var attrs []stun.Setter
+	switch m {
+	case "Allocate":
+		attrs = []stun.Setter{proto.RequestedTransport{Protocol: proto.ProtoUDP}}
+	case "Refresh":
+		attrs = []stun.Setter{proto.Lifetime{Duration: 0}}
+	case "CreatePermission":
+		attrs = []stun.Setter{w.wirePeer([]any{"B", w.Meta.PeerPorts[0]})}
+	case "ChannelBind":
+		attrs = []stun.Setter{proto.ChannelNumber(0x4005), w.wirePeer([]any{"B", w.Meta.PeerPorts[0]})}
+	case "Connect":
+		attrs = []stun.Setter{w.wirePeer([]any{"B", w.Meta.PeerPorts[0]})}
+	case "ConnectionBind":
+		attrs = []stun.Setter{proto.ConnectionID(7)}
+	}
+	user := "u1"
+	if pr := w.Project(); pr.C[c].Live {
+		user = pr.C[c].User // the owner's name, so that only the defect stands between the request and its effect
+	}
+	pw := "pw-" + user
+	nonce := w.nonce
+	useUser, useRealm, useNonce, useMI := true, true, true, true
+	miUser := user
+	switch k {
+	case "noMI":
+		useUser, useRealm, useNonce, useMI = false, false, false, false
+	case "noNonce":
+		useNonce = false
+	case "noUser":
+		useUser = false
+	case "noRealm":
+		useRealm = false
+	case "ghostUser":
+		user, miUser, pw = "ghost", "ghost", "pw-ghost"
+	case "wrongPw":
+		pw = "not-the-password"
+	case "otherUserKey":
+		for _, u := range w.Meta.Users {
+			if u != user {
+				miUser, pw = u, "pw-"+u
+			}
+		}
+	case "forgedNonce":
+		nonce = "1z141z4" + fmt.Sprintf("%x", sha256.Sum256([]byte(fmt.Sprint(w.Seed, w.step))))[:18]
+	case "mutTsNonce":
+		nonce = mutChar(nonce, 0)
+	case "futureNonce":
+		nonce = "z" + nonce[1:]
+	case "mutMacNonce":
+		nonce = mutChar(nonce, len(nonce)-1)
+	case "otherInstNonce":
+		nonce = otherInstanceNonce()
+	case "staleNonce":
+		nonce = w.staleNonce
+	case "emptyNonce":
+		nonce = ""
+	case "garbageNonce":
+		nonce = "!!**--~~"
+	case "truncMI", "flipMI", "flipBody", "ok":
+	default:
+		return nil, fmt.Errorf("unknown credential kind %q", k)
+	}
+	s := []stun.Setter{txidSetter(w.curTxid), stun.NewType(methodOf(m), stun.ClassRequest)}
+	s = append(s, attrs...)
+	if useUser {
+		s = append(s, stun.NewUsername(user))
+	}
+	if useRealm {
+		s = append(s, stun.NewRealm(realm))
+	}
+	if useNonce {
+		s = append(s, stun.NewNonce(nonce))
+	}
+	if useMI {
+		s = append(s, stun.NewLongTermIntegrity(miUser, realm, pw))
+	}
+	msg, err := stun.Build(s...)
+	if err != nil {
+		return nil, err
+	}
+	raw := append([]byte{}, msg.Raw...)
+	switch k {
+	case "flipMI":
+		raw[len(raw)-1] ^= 0x10
+	case "flipBody":
+		raw[20+4] ^= 0x01 // first byte of the first attribute's value
+	case "truncMI":
+		// MESSAGE-INTEGRITY cut to 10 bytes (+2 padding): rewrite attribute and message lengths
+		mi := len(raw) - 24
+		cut := append([]byte{}, raw[:mi]...)
+		cut = append(cut, 0x00, 0x08, 0x00, 0x0a)
+		cut = append(cut, raw[mi+4:mi+14]...)
+		cut = append(cut, 0, 0)
+		binary.BigEndian.PutUint16(cut[2:4], uint16(len(cut)-20)) //nolint:gosec
+		raw = cut
+	}
+
+	return raw, nil
+}
+
+func mutChar(s string, i int) string {
+	if len(s) == 0 {
+		return "0"
+	}
+	b := []byte(s)
+	if b[i] == 'a' || b[i] == 'A' { // the nonce alphabet is case-insensitive
+		b[i] = 'B'
+	} else {
+		b[i] = 'A'
+	}
+
+	return string(b)
 }
